@@ -382,6 +382,53 @@ def all_leaf_sizes(rng):
     return out
 
 
+def many_children(rng, th=False):
+    """containers without a count field holding hundreds to thousands of small children, and chains of one constructor
+    nested 8..40 deep (depth and breadth themselves as the variable)"""
+    out = []
+    small = [{"t": "Zero"}, {"t": "One"}, {"t": "Int", "ty": "u8", "v": [66]}, {"t": "Local", "n": 3}, {"t": "Ones"}]
+    for n in ([255, 256, 257, 1000, 5000] if th else [256, 257, 1200]):
+        for kind in ("Scope", "Device", "Method", "PowerResource", "If", "Else", "While"):
+            g = G(rng)
+            ch = [small[(i * 7 + n) % len(small)] for i in range(n)]
+            t = g.make(kind, g.leaf)
+            t["ch"] = ch
+            out.append(prog(g, t, tag="%s/children/%d" % (kind, n)))
+    for depth in ([8, 16, 40] if th else [8, 24]):
+        for kind in ("Scope", "Device", "Method", "If", "While", "Package", "Else", "VarPackage", "BufferTerm", "Name", "Un"):
+            g = G(rng)
+            t = g.leaf()
+            for _ in range(depth):
+                once = [t]
+                t = g.make(kind, (lambda: once.pop() if once else {"t": "Zero"}))      # one nested child, the rest leaves
+            out.append(prog(g, t, tag="%s/depth/%d" % (kind, depth)))
+    return out
+
+
+def with_equal_children(p, rng):
+    """a copy of the program in which, in every list of children, one child is replaced by a copy of a sibling"""
+    import copy
+    q = copy.deepcopy(p)
+
+    def walk(x):
+        if isinstance(x, dict):
+            for k, v in x.items():
+                if k in ("ch", "args") and isinstance(v, list) and len(v) >= 2:
+                    i, j = rng.below(len(v)), rng.below(len(v))
+                    v[i] = copy.deepcopy(v[j])
+                walk(v)
+            for a, b in (("a", "b"), ("l", "r"), ("name", "value"), ("src", "idx")):
+                if a in x and b in x and isinstance(x[a], dict) and isinstance(x[b], dict) and rng.chance(1, 2):
+                    x[b] = copy.deepcopy(x[a])
+        elif isinstance(x, list):
+            for v in x:
+                walk(v)
+    walk(q["tree"])
+    if "tag" in q:
+        q["tag"] = "equal/" + q["tag"]
+    return q
+
+
 def wrapped(p, i=0):
     """the same object as the child of a container (its length then sits inside another length)"""
     outer = [{"t": "Scope", "path": chars("WRAP"), "ch": [p["tree"]]},
